@@ -23,6 +23,7 @@ func init() {
 			c09R2(c, "C09.R2")
 			ruleFreelistCountConvention(c, "C09.R3")
 			c09R4(c, "C09.R4")
+			c09R5(c, "C09.R5")
 		},
 		CHA: func(c *Ctx) { ruleFreeSetEntry(c, "C09.R1") },
 	})
@@ -248,5 +249,53 @@ func c09R4(c *Ctx, id string) {
 			})
 		}
 		c.check(id+":freelist.(*shared).Free:rejects-double-free", free, free.Pos(), fmt.Sprintf("an id already in the cache panics; the %d stores adding the id to pending/cache are dominated by the not-cached edge", n), ok2 && n >= 2, detail)
+	})
+}
+
+// c09R5: Init REPLACES the free set: every storage field declared on the
+// backend itself is (re)assigned on every path through Init. A field that
+// survives a re-Init (rollback reload, NoSyncReload) makes the backend's state
+// depend on its history — "rolling back restores exactly the prior state" and
+// backend equivalence both need this.
+func c09R5(c *Ctx, id string) {
+	c.rule(id, "init-resets-own-storage", 2, func() {
+		pk := c.P.Pkg(freelistPath)
+		for _, tn := range []string{"array", "hashMap"} {
+			obj := pk.Types.Scope().Lookup(tn)
+			st := obj.Type().Underlying().(*types.Struct)
+			ini := c.fn("freelist.(*" + tn + ").Init")
+			bad := ""
+			n := 0
+			for i := 0; i < st.NumFields(); i++ {
+				f := st.Field(i)
+				if f.Embedded() {
+					continue
+				}
+				n++
+				var stores []ssa.Instruction
+				eachInstr(ini, func(in ssa.Instruction) {
+					if s, ok := in.(*ssa.Store); ok {
+						if fa, ok := s.Addr.(*ssa.FieldAddr); ok && fieldOfAddr(fa) == f {
+							stores = append(stores, in)
+						}
+					}
+				})
+				isStore := func(in ssa.Instruction) bool {
+					for _, s := range stores {
+						if s == in {
+							return true
+						}
+					}
+					return false
+				}
+				r := reach(nil, []*ssa.BasicBlock{ini.Blocks[0]}, isStore, nil)
+				for _, ret := range returnsOf(ini) {
+					if r[ret] {
+						bad = "field " + f.Name() + " of *" + tn + " is not assigned on a path through Init"
+					}
+				}
+			}
+			c.check(id+":freelist.(*"+tn+").Init:resets-own-fields", ini, ini.Pos(), fmt.Sprintf("Init assigns every storage field declared on *%s (%d fields) on every path: a re-initialised backend does not depend on its previous content", tn, n), bad == "" && n > 0, bad)
+		}
 	})
 }
